@@ -226,6 +226,16 @@ func c16DecodeBatch(c *rt.Ctx, sub int, k intKind, vals []*big.Int) {
 	c.Obs("decode_values:"+k.name, int64(n))
 }
 
+// c16Prefill puts 7 into an integer destination: a decode that fails must leave it there.
+func c16Prefill(v reflect.Value) {
+	switch v.Kind() {
+	case reflect.Int, reflect.Int8, reflect.Int16, reflect.Int32, reflect.Int64:
+		v.SetInt(7)
+	default:
+		v.SetUint(7)
+	}
+}
+
 // c16DecodeOne decodes one literal at one position. want==nil/valid=false means an error is required.
 func c16DecodeOne(c *rt.Ctx, sub int, k intKind, pos, lit string, want *big.Int, valid bool) {
 	var err error
@@ -234,16 +244,28 @@ func c16DecodeOne(c *rt.Ctx, sub int, k intKind, pos, lit string, want *big.Int,
 		switch pos {
 		case "plain":
 			d := reflect.New(k.t)
+			if !valid {
+				c16Prefill(d.Elem())
+			}
 			err = gojson.Unmarshal([]byte(lit), d.Interface())
 			got = intText(d.Elem())
 		case "stream":
 			d := reflect.New(k.t)
+			if !valid {
+				c16Prefill(d.Elem())
+			}
 			err = gojson.NewDecoder(strings.NewReader(lit)).Decode(d.Interface())
 			got = intText(d.Elem())
 		case "pointer":
 			d := reflect.New(reflect.PtrTo(k.t))
+			if !valid {
+				// an allocated pointee that already holds a number
+				pv := reflect.New(k.t)
+				c16Prefill(pv.Elem())
+				d.Elem().Set(pv)
+			}
 			err = gojson.Unmarshal([]byte(lit), d.Interface())
-			if err == nil && !d.Elem().IsNil() {
+			if !d.Elem().IsNil() {
 				got = intText(d.Elem().Elem())
 			} else if err == nil {
 				got = "<nil pointer>"
@@ -262,6 +284,9 @@ func c16DecodeOne(c *rt.Ctx, sub int, k intKind, pos, lit string, want *big.Int,
 		case "string-tag", "string-tag-escaped":
 			st := reflect.StructOf([]reflect.StructField{{Name: "V", Type: k.t, Tag: `json:"v,string"`}})
 			d := reflect.New(st)
+			if !valid {
+				c16Prefill(d.Elem().Field(0))
+			}
 			err = gojson.Unmarshal([]byte(`{"v":"`+c16Spell(lit, pos)+`"}`), d.Interface())
 			got = intText(d.Elem().Field(0))
 		}
@@ -279,6 +304,10 @@ func c16DecodeOne(c *rt.Ctx, sub int, k intKind, pos, lit string, want *big.Int,
 	case valid && got != want.String():
 		c.Violate(rt.Violation{Monitor: "int-decode", Entry: "Unmarshal", Kind: "wrong-value", Ctx: k.name + ":" + pos + ":" + cls,
 			Detail: fmt.Sprintf("%s literal %s at %s stored %s", k.name, lit, pos, got), Input: lit, Sub: sub})
+	case !valid && err != nil && !strings.HasPrefix(pos, "map-key") && got != "7" && got != "":
+		// the error is reported, but a number was stored all the same
+		c.Violate(rt.Violation{Monitor: "int-decode", Entry: "Unmarshal", Kind: "stores-on-error:" + cls, Ctx: k.name + ":" + pos,
+			Detail: fmt.Sprintf("%s literal %q at %s: error %v, but the destination went from 7 to %s", k.name, lit, pos, err, got), Input: lit, Sub: sub})
 	case !valid && err == nil && pos == "stream":
 		// A Decoder reads one value and leaves what follows in the stream: "01" is the value 0
 		// followed by 1, "1-" the value 1 followed by a stray byte, for encoding/json's Decoder
